@@ -802,6 +802,44 @@ fn check_field_identifiers(file: &File) -> Result<(), Diagnostics> {
     diagnostics.err_or(())
 }
 
+/// Check field identifiers across the scope of each declaration, once the
+/// groups are inlined: the scope of a field identifier extends to the fields
+/// inlined from groups and to all derived declarations.
+/// Raises error diagnostics for the following cases:
+///      - duplicate field identifier
+fn check_scoped_field_identifiers(file: &File, scope: &Scope) -> Result<(), Diagnostics> {
+    let mut diagnostics: Diagnostics = Default::default();
+    for decl in &file.declarations {
+        let mut local_scope = HashMap::new();
+        // Parent fields are visited first so that the redeclaration is
+        // reported on the derived declaration.
+        let parents = scope.iter_parents_and_self(decl).collect::<Vec<_>>();
+        for field in parents.iter().rev().flat_map(|decl| decl.fields()) {
+            if let Some(id) = field.id() {
+                if let Some(prev) = local_scope.insert(id.to_string(), field) {
+                    diagnostics.push(
+                        Diagnostic::error()
+                            .with_code(ErrorCode::DuplicateFieldIdentifier)
+                            .with_message(format!(
+                                "redeclaration of {} field identifier `{}`",
+                                field.kind(),
+                                id
+                            ))
+                            .with_labels(vec![
+                                field.loc.primary(),
+                                prev.loc
+                                    .secondary()
+                                    .with_message(format!("`{id}` is first declared here")),
+                            ]),
+                    )
+                }
+            }
+        }
+    }
+
+    diagnostics.err_or(())
+}
+
 /// Check enum declarations.
 /// Raises error diagnostics for the following cases:
 ///      - duplicate tag identifier
@@ -1922,6 +1960,7 @@ pub fn analyze(file: &File) -> Result<File, Diagnostics> {
     let mut file = inline_groups(&file)?;
     desugar_flags(&mut file);
     let scope = Scope::new(&file)?;
+    check_scoped_field_identifiers(&file, &scope)?;
     check_decl_constraints(&file, &scope)?;
     let schema = Schema::new(&file);
     check_field_offsets(&file, &scope, &schema)?;
